@@ -181,7 +181,8 @@ def project_for_run(project, run_index):
 
 
 def act_fails(a):
-    return (a["a"] == "log" and a["level"] == "error") or (a["a"] == "check" and not a["ok"]) or a["a"] == "raise"
+    return ((a["a"] == "log" and a["level"] == "error") or (a["a"] == "check" and not a["ok"]) or a["a"] == "raise"
+            or (a["a"] == "attachw" and a.get("via") == "save_file"))      # save_attachment_file on a missing source always raises
 
 
 # ------------------------------------------------------------------------------------------------
@@ -306,6 +307,10 @@ def check_valid(project):
             elif a["a"] == "attachw":
                 if depth >= 2:
                     raise Invalid("attachment blocks nested deeper than 2")
+                if a.get("via") is not None and (a["via"] != "save_file" or a["script"] != SAVE_MISSING_FILE["script"]):
+                    raise Invalid("save_attachment_file act")
+                if a.get("write") not in (None, "late"):
+                    raise Invalid("attachment block write mode")
                 walk(a["script"], in_thread, depth + 1)
             elif a["a"] == "raise":
                 if a["kind"] not in RAISE_KINDS or (a.get("sub") and a["kind"] == "exc"):
@@ -384,6 +389,11 @@ BASE_EXCEPTIONS = ["SystemExit", "GeneratorExit", "CustomBase"]
 ABORT_ARGS = ["none", "exc", "int", "two", "twostr"]
 
 
+# `lcc.save_attachment_file` / `save_image_file` given a source path that does not exist: seen by the model as what it is — a
+# `prepare_attachment` block whose body (shutil.copy) raises an Exception before anything is written
+SAVE_MISSING_FILE = {"a": "attachw", "via": "save_file", "script": [{"a": "raise", "kind": "exc"}]}
+
+
 def _failing_act(rng, kinds):
     r = rng.random()
     if not kinds or r < 0.25:
@@ -429,7 +439,21 @@ def gen_script(rng, cfg, p_fail, p_gate, max_len=4, kinds=None):
             sc, in_thread = rng.choice(nested)
             sc.insert(rng.randint(0, len(sc)), f)
         else:
+            r2 = rng.random()
+            if r2 < 0.10 and "exc" in kinds:
+                # `lcc.save_attachment_file(<a path that does not exist>)`: the framework's own `with prepare_attachment` block
+                # around `shutil.copy`, which raises FileNotFoundError BEFORE the attachment file exists
+                f = dict(SAVE_MISSING_FILE)
+            elif r2 < 0.24:
+                # the failing act is the content producer of a block that writes its file LAST: it never gets written
+                f = {"a": "attachw", "write": "late", "script": [f]}
             acts.insert(rng.randint(0, len(acts)), f)
+    # where a block writes its attachment file: first thing (default), or as its LAST statement ("write": "late") — a block
+    # that is left by an exception then never created the file
+    for sc, _ in [(acts, False)] + list(_holders(acts)):
+        for a in sc:
+            if a["a"] == "attachw" and "write" not in a and "via" not in a and rng.random() < 0.5:
+                a["write"] = "late"
     return acts
 
 
@@ -762,6 +786,12 @@ def features(project):
             for a in acts:
                 if a["a"] == "attachw":
                     f.add("attach-block")
+                    if a.get("via") == "save_file":
+                        f.add("save_attachment_file-missing-source" + ("-in-thread" if in_thread else ""))
+                    elif a.get("write") == "late":
+                        f.add("attach-block-writes-file-last")
+                        if any(act_fails(b) for b in iter_acts(a["script"])):
+                            f.add("attach-block-left-by-failure-before-file-written" + ("-in-thread" if in_thread else ""))
                     if depth:
                         f.add("attach-block+nested-block")
                     if in_thread:
@@ -985,7 +1015,7 @@ def shrink_project(p):
             sc2, j = locate(h2[k2], path)
             del sc2[j]
             cands.append(q)
-            if a["a"] == "attachw" and a["script"]:
+            if a["a"] == "attachw" and a["script"] and not a.get("via"):
                 # the block dissolved: its acts in its place
                 q = copy.deepcopy(p)
                 h2, k2 = _script_slots(q)[k]
